@@ -49,6 +49,14 @@ impl Vm {
                         self.ip,
                         self.acc.clone(),
                     ));
+                    // The aborted evaluation's frames must not outlive it: the next
+                    // evaluation would run on top of them, its stack trace would list
+                    // them, and they would keep their data alive as collector roots.
+                    self.stack.clear();
+                    *self.stack.get_sp_mut() = 0;
+                    self.bp = 0;
+                    self.ep = usize::MAX;
+                    self.acc = VCell::undefined();
                     return Err(e);
                 }
             }
